@@ -37,6 +37,15 @@ pub struct Knobs {
     pub short_write_permille: u32,
     /// bytes CLIENT-RX takes per step (0 = everything available)
     pub rx_chunk: usize,
+    /// > 0: the whole run is executed in a child process on a thread with a stack of this many
+    /// KiB (tokio's worker threads, on which the document broker analyses, have 2 MiB): running out
+    /// of stack kills the process
+    #[serde(default, skip_serializing_if = "is_zero_usize")]
+    pub stack_kib: usize,
+}
+
+fn is_zero_usize(b: &usize) -> bool {
+    *b == 0
 }
 
 impl Knobs {
@@ -49,6 +58,7 @@ impl Knobs {
             yield_permille: 0,
             short_write_permille: 0,
             rx_chunk: 0,
+            stack_kib: 0,
         }
     }
 }
